@@ -882,9 +882,11 @@ TraceOpDone ==
 Inv_C07_ChainsGapFree(o) ==
     \A k \in 1..Len(o.chains) :
         LET ch == o.chains[k] IN
+        \* (from > 0: a rolling window smaller than the chain lists its tail only)
+        LET from == IF "from" \in DOMAIN ch THEN ch.from ELSE 0 IN
         /\ ch.linked
-        /\ \A i \in 1..Len(ch.idx) : ch.idx[i] = i - 1
-        /\ ch.last = Len(ch.idx) - 1
+        /\ \A i \in 1..Len(ch.idx) : ch.idx[i] = from + i - 1
+        /\ ch.last = from + Len(ch.idx) - 1
 
 TraceOffer ==
     /\ Line.a = "Offer"
